@@ -574,7 +574,11 @@ class ValueOps:
             if check:
                 st.oblige(mk_and(mk_le('0', it), mk_lt(it, n)), 'index in range', lineno)
         ety = self.elem_ty(sv, idx.const if idx.is_const else None)
-        return self.unbox("(at %s %s)" % (q, it), ety)
+        res = self.unbox("(at %s %s)" % (q, it), ety)
+        df = sv.extra.get('deepfresh') if isinstance(sv.extra, dict) else None
+        if df is not None:
+            res = self.mark_deepfresh(res, "(at %s %s)" % (q, it), df)
+        return res
 
     # ------------------------------------------------------------ heap
     def attr_type(self, classes, attr):
@@ -603,6 +607,9 @@ class ValueOps:
                 self.read_log.add('%s@%s' % (attr, f))
         t = mk_select(arr, obj.term)
         sv = self.unbox(t, ty)
+        df = obj.extra.get('deepfresh') if isinstance(obj.extra, dict) else None
+        if df is not None:
+            sv = self.mark_deepfresh(sv, t, df)
         if arr == st.decls.base_heap.get(attr) and getattr(self, 'alloc0', None) is not None:
             # a value stored in the entry heap refers to an object that existed at entry
             for k in ('ref', 'list', 'dict'):
@@ -613,6 +620,19 @@ class ValueOps:
 
     def families_of(self, classes):
         return sorted({self.repo.family(c) for c in classes})
+
+    def mark_deepfresh(self, sv, boxed, df):
+        """a value read out of a deep copy: references, lists and dicts in it belong to the copy's own block of addresses"""
+        a0, a1 = df
+        st = self.st
+        for k, sel in (('ref', 'vr'), ('list', 'vl'), ('dict', 'vd')):
+            if sv.kind == k and sv.term is not None:
+                st.assume(mk_and(mk_le(a0, sv.term), mk_lt(sv.term, a1)), 'wf')
+            elif sv.kind == 'val' and ('any' in sv.ty or k in {atom_kind(a) for a in sv.ty}):
+                st.assume(mk_implies(is_tag(k, boxed), mk_and(mk_le(a0, "(%s %s)" % (sel, boxed)), mk_lt("(%s %s)" % (sel, boxed), a1))), 'wf')
+        if sv.kind in ('ref', 'list', 'dict', 'val') and sv.extra is None:
+            sv = SV(sv.kind, sv.term, sv.ty, const=sv.const, elems=sv.elems, seq=sv.seq, owned=sv.owned, extra={'deepfresh': df})
+        return sv
 
     def write_attr(self, obj, attr, val):
         st = self.st
